@@ -40,6 +40,8 @@ struct Schedule {
     steps: Vec<Step>,
 }
 
+selium_verif_harness::virtual_clock!();
+
 type Registry = Arc<Mutex<HashMap<(u64, u64), Frame>>>;
 
 struct Pub {
@@ -58,6 +60,7 @@ struct Run {
     registry: Registry,
     describe: Describe,
     closed: bool,
+    tick: Option<&'static [u64]>,
     finished: bool,
     dead: bool,
     polls: u64,
@@ -118,6 +121,7 @@ impl Run {
             registry,
             describe,
             closed: false,
+            tick: None,
             finished: false,
             dead: false,
             polls: 0,
@@ -294,7 +298,13 @@ impl Run {
     }
 
     fn run(&mut self, sched: &Schedule) {
-        for st in &sched.steps {
+        for (i, st) in sched.steps.iter().enumerate() {
+            // time passes (a stuttering step of the specification: the router has no timers)
+            if let Some(secs) = self.tick {
+                let d = std::time::Duration::from_secs(secs[i % secs.len()]);
+                selium_verif_harness::clock::advance(d);
+                self.log.emit("tick", json!({"secs": d.as_secs()}));
+            }
             self.apply(st);
             self.maybe_quiescent();
         }
@@ -403,6 +413,42 @@ fn random_schedule(rng: &mut StdRng, k: u64, max_pubs: u64, max_subs: u64, max_i
     Schedule { id: format!("rnd-{k}"), steps }
 }
 
+/// One long life of a topic: six subscribers joining one after the other while two publishers send some
+/// fifteen hundred messages; subscribers hesitate now and then (readiness or flushing blocked for a few
+/// polls) and every second one leaves by failing.  Whatever the router counts or remembers per subscriber,
+/// per message or per topic must not add up to a different treatment of the later ones.
+fn marathon_schedule(rng: &mut StdRng) -> Schedule {
+    let s = |op: &str, id: u64, which: &str| Step { op: op.into(), id, which: which.into() };
+    let mut steps = vec![s("reg_pub", 1, ""), s("reg_pub", 2, ""), s("poll", 0, "")];
+    for g in 1..=6u64 {
+        steps.push(s("reg_sub", g, ""));
+        steps.push(s("poll", 0, ""));
+        let n = rng.gen_range(220..280u64);
+        let hesitate_at = rng.gen_range(20..n - 40);
+        for i in 0..n {
+            steps.push(s("publish", 1 + (i + g) % 2, ""));
+            if i == hesitate_at {
+                let which = if g % 2 == 0 { "ready" } else { "flush" };
+                steps.push(s("block", g, which));
+                steps.push(s("poll", 0, ""));
+                steps.push(s("publish", 1, ""));
+                steps.push(s("poll", 0, ""));
+                steps.push(s("unblock", g, which));
+            }
+            if i % 32 == 31 {
+                steps.push(s("poll", 0, ""));
+            }
+        }
+        steps.push(s("poll", 0, ""));
+        if g % 2 == 0 {
+            steps.push(s("break", g, ["ready", "send", "flush"][(g as usize / 2) % 3]));
+            steps.push(s("publish", 2, ""));
+            steps.push(s("poll", 0, ""));
+        }
+    }
+    Schedule { id: "marathon".into(), steps }
+}
+
 fn arg(args: &[String], name: &str) -> Option<String> {
     args.iter().position(|a| a == name).and_then(|i| args.get(i + 1).cloned())
 }
@@ -434,6 +480,9 @@ fn main() {
         for k in 0..n {
             schedules.push(random_schedule(&mut rng, k, mp, ms, mi, len));
         }
+        for _ in 0..(n / 3000).max(1) {
+            schedules.push(marathon_schedule(&mut rng));
+        }
     }
     if let Some(f) = arg(&args, "--save-schedules") {
         let mut w = std::io::BufWriter::new(std::fs::File::create(f).unwrap());
@@ -445,6 +494,13 @@ fn main() {
     for (k, s) in schedules.iter().enumerate() {
         log.reset(k as u64 + 1, json!({"sched": s.id}));
         let mut run = Run::new(log.clone(), seed.wrapping_add(k as u64));
+        // every fourth schedule runs with the clock jumping ahead between its steps: by seconds, by minutes,
+        // by hours (seconds first so that short and long limits are both crossed with an operation in between)
+        run.tick = match k % 8 {
+            1 => Some(&[7, 7, 61, 7, 3601]),
+            5 => Some(&[1, 2, 4, 8, 16, 32, 64, 128, 86_400]),
+            _ => None,
+        };
         run.run(s);
         summary.push(json!({"run": k + 1, "sched": s.id, "polls": run.polls, "finished": run.finished, "dead": run.dead}));
     }
